@@ -254,7 +254,7 @@ func (c *wsConn) handleOutChans() {
 			// Output channel closed, cleanup, and tell remote that this happened
 
 			id := caseToID[chosen-internal]
-			vhook("fwd.close", c, "ch", id)
+			vhook("fwd.close", c, "ch", id, "hp", cases[chosen].Chan.Pointer())
 
 			n := len(cases) - 1
 			if n > 0 {
@@ -282,7 +282,7 @@ func (c *wsConn) handleOutChans() {
 			continue
 		}
 
-		vhook("fwd.val", c, "ch", caseToID[chosen-internal])
+		vhook("fwd.val", c, "ch", caseToID[chosen-internal], "hp", cases[chosen].Chan.Pointer())
 		// forward message
 		rp, err := json.Marshal([]param{{v: reflect.ValueOf(caseToID[chosen-internal])}, {v: val}})
 		if err != nil {
